@@ -1549,12 +1549,20 @@ def _thread_jumps(blocks, max_new=240, rounds=48):
             return None
         return place_val(env, pl)
 
+    # a local whose address is taken mutably (a `&mut` borrow, a raw pointer, a unique closure capture) can change
+    # behind the interpreter's back: never tracked
+    escaped = set()
+    for b_ in blocks:
+        for st_ in b_["stmts"]:
+            if st_["k"] == "assign" and st_["rv"]["k"] in ("ref", "rawptr") and (st_["rv"].get("mut") or st_["rv"]["k"] == "rawptr"):
+                escaped.add(st_["rv"]["place"]["l"])
+
     def run(env, b):
         """interpret block b over env: local -> int constant | ('variant', name, [payload values])"""
         for st in b["stmts"]:
             if st["k"] != "assign":
                 continue
-            if st["lhs"]["p"]:
+            if st["lhs"]["p"] or st["lhs"]["l"] in escaped:
                 env[st["lhs"]["l"]] = None
                 continue
             rv = st["rv"]
